@@ -58,13 +58,13 @@ type SimP4 struct {
 	// FailCode: canonical code of the injected per-update error (kind "update"; default INTERNAL)
 	FailCode codes.Code
 
-	Tables   map[uint32]map[string]*p4.TableEntry
-	Meters   map[uint32]map[int64]*p4.MeterConfig
-	Counters map[uint32]map[int64]bool
-	PacketOuts []UnixWrite
-	Writes   int
-	WriteLog []P4WriteRec
-	Invalid  []P4Invalid
+	Tables       map[uint32]map[string]*p4.TableEntry
+	Meters       map[uint32]map[int64]*p4.MeterConfig
+	Counters     map[uint32]map[int64]bool
+	PacketOuts   []UnixWrite
+	Writes       int
+	WriteLog     []P4WriteRec
+	Invalid      []P4Invalid
 	KeyConflicts []P4KeyConflict
 	// OnWrite, when set, sees the summary of every Write RPC as the switch receives
 	// it and may add to its processing time (the simulator aims another event at a
@@ -72,8 +72,8 @@ type SimP4 struct {
 	OnWrite func(summary string) time.Duration
 	// NeedReconnect: set by Restart; the channel reads IDLE until it is used again
 	NeedReconnect bool
-	streams  []*p4Stream
-	Reads    int
+	streams       []*p4Stream
+	Reads         int
 
 	tabByID  map[uint32]*p4cfg.Table
 	actByID  map[uint32]*p4cfg.Action
@@ -185,7 +185,7 @@ func (s *SimP4) ActionName(id uint32) string {
 	return fmt.Sprintf("action#%d", id)
 }
 
-func (s *SimP4) MeterSize(name string) int64 { return s.metByID[s.nameToID[name]].GetSize() }
+func (s *SimP4) MeterSize(name string) int64   { return s.metByID[s.nameToID[name]].GetSize() }
 func (s *SimP4) CounterSize(name string) int64 { return s.ctrByID[s.nameToID[name]].GetSize() }
 
 // ---------------------------------------------------------------- canonical values
